@@ -8,6 +8,7 @@
    kind 5  L [I 5; tables; steps]   history over several tables -> the tables after every step
            step  L [I 0; I ti; I axis; L [L [id; src]; ...]]   src = L [I 0; entry] | L [I 1; I tj; I axis; id]
                  L [I 1; I ti; keys opt; I sel]
+                 L [I 2; I ti; I axis; id; key]        a read  t.metadata(id, axis)[key]
    conv    L [L [I kind; text; value]; ...]   the graph of int() / float() on the texts of the case *)
 From Coq Require Import List ZArith Bool.
 From BiomV Require Import Base.Tree Base.ListUtil Base.Matrix Model.Table Model.Tsv Model.Metadata.
@@ -52,7 +53,9 @@ Definition tSel (z : Z) : axsel := if z =? 0 then SelObs else if z =? 1 then Sel
 Definition tStep (t : Tree) : minstr :=
   if tZ (tnth t 0) =? 0
   then IAdd (tN (tnth t 1)) (tAxis (tnth t 2)) (map (fun kv => (tText (tnth kv 0), tSrc (tnth kv 1))) (tL (tnth t 3)))
-  else IDel (tN (tnth t 1)) (tOpt tTexts (tnth t 2)) (tSel (tZ (tnth t 3))).
+  else if tZ (tnth t 0) =? 1
+  then IDel (tN (tnth t 1)) (tOpt tTexts (tnth t 2)) (tSel (tZ (tnth t 3)))
+  else IRead (tN (tnth t 1)) (tAxis (tnth t 2)) (tText (tnth t 3)) (tText (tnth t 4)).
 
 Definition run (t : Tree) : Tree :=
   match tZ (tnth t 0) with
